@@ -2,8 +2,8 @@ import sys, io, copy, warnings
 warnings.filterwarnings('ignore')
 root = sys.argv[1]
 sys.path.insert(0, root + '/src')
-sys.path.insert(0, '/verif/harness')
-import stub_modules as stubmods; stubmods.install()
+sys.path.insert(0, '/root/scratch/probe')
+import stubmods; stubmods.install()
 import numpy as np, pydicom, highdicom as hd
 from pydicom.pixels import apply_modality_lut, apply_voi_lut
 
